@@ -302,6 +302,7 @@ def run(ck):
     # 3./4. every stream under its own guard: implementation-only oracles first (they need neither tables nor model)
     for name, fn in [("known_defect", lambda: known_defect(ck)), ("evolution_grid", lambda: stream_grid(ck)),
                      ("exp_word_float", lambda: stream_exp_word_float(ck)), ("convergence", lambda: stream_convergence(ck)),
+                     ("unitary_generator", lambda: stream_unitary_generator(ck)),
                      ("oracle", lambda: stream_oracle(ck)),
                      ("exp_word", lambda: stream_exp_word(ck, pre)), ("time_evolution", lambda: stream_time_evolution(ck, pre)),
                      ("suzuki", lambda: stream_suzuki(ck, pre)), ("fermion", lambda: stream_fermion(ck, pre))]:
@@ -766,6 +767,116 @@ def stream_suzuki(ck, pre):
                          {"kind": "suzuki", "order": o, "terms": m})
 
 
+# ------------------------------------------------------------------------------------------ unitary_generator classes
+def tsu_case(terms, t, order, n_trotter, n_steps, control, method, via_arg):
+    """TrotterSuzukiUnitary(H, t, order, n_trotter).build_circuit(n_steps, control): (exception, deviation from
+    (controlled) exp(-i t H)^n_steps, bound).  build_circuit returns no phase: without control the identity term is a
+    dropped global phase (the reference leaves it out), with control it must be on the controls."""
+    from tangelo.toolboxes.unitary_generator.trotter_suzuki import TrotterSuzukiUnitary
+    op = qubit_op(terms)
+    cs = ctrl_list(control)
+    try:
+        if via_arg:
+            circ = TrotterSuzukiUnitary(op, time=t, trotter_order=order, n_trotter_steps=n_trotter).build_circuit(n_steps, control=control, method=method)
+        else:
+            circ = TrotterSuzukiUnitary(op, time=t, trotter_order=order, n_trotter_steps=n_trotter, n_steps_method=method).build_circuit(n_steps, control=control)
+    except Exception as e:
+        return e, None, None
+    nq = max(width_of(terms, control), circ.width)
+    ref_terms = [(w, c) for w, c in terms if (w or cs)]
+    mats = [c * t * word_matrix(w, nq) for w, c in ref_terms]
+    H = sum(mats, np.zeros((1 << nq, 1 << nq), dtype=complex))
+    U = NS.unitary(NS.gates_of(circ), nq)
+    d = snorm(U - controlled(expm_h(H, float(n_steps)), cs, nq))
+    nc = [m_ for (w, _), m_ in zip(ref_terms, mats) if w]
+    if method == "time":       # one product formula for the whole duration t*n_steps with n_trotter steps
+        bound = product_formula_bound([m_ * n_steps for m_ in nc], 1.0, n_trotter, order) if nc else 0.0
+    else:                      # n_steps repetitions of the formula for duration t
+        bound = n_steps * product_formula_bound(nc, 1.0, n_trotter, order) if nc else 0.0
+    return None, d, bound
+
+
+def circuit_unitary_case(specs, n, n_steps, control):
+    """CircuitUnitary(circuit).build_circuit(n_steps, control): deviation from (controlled) U_circuit^n_steps."""
+    from tangelo.linq import Circuit
+    from tangelo.toolboxes.unitary_generator.unitary_circuit import CircuitUnitary
+    circ = Circuit([LC.make_gate(sp) for sp in specs])       # no fixed n_qubits: the controls lie outside the circuit's own qubits
+    cs = ctrl_list(control)
+    try:
+        out = CircuitUnitary(circ).build_circuit(n_steps, control=control)
+    except Exception as e:
+        return e, None
+    nq = max([n] + [c + 1 for c in cs])
+    U0 = NS.unitary(NS.gates_of(circ), nq)
+    return None, snorm(NS.unitary(NS.gates_of(out), nq) - controlled(np.linalg.matrix_power(U0, n_steps), cs, nq))
+
+
+def stream_unitary_generator(ck):
+    rng = ck.rng
+    quick = ck.tier == "quick"
+    ck.stream("unitary-generator", "TrotterSuzukiUnitary.build_circuit: n_steps_method 'time' / 'repeat' (given to the constructor or to build_circuit) x n_trotter_steps 1-3 x "
+              "n_steps 1-4 x control none / int (0 included) / lists x order 1, 2, random operators on qubits 1-3 with an identity term in half of them, real time: the "
+              "circuit's unitary equals (controlled) exp(-i t H)^n_steps to 1e-8 for COMMUTING operators and within the first/second-order commutator bound otherwise "
+              "('time': one formula of duration t*n_steps with n_trotter_steps steps; 'repeat': n_steps times the bound for duration t); "
+              "CircuitUnitary.build_circuit: random circuits, controlled U^n_steps (numpy)")
+    controls = [None, 4, 0, [4], [0, 4], [5, 4]]
+    for method in ("time", "repeat"):
+        for n_trotter in (1, 2, 3):
+            for n_steps in (1, 2, 3, 4):
+                for commuting in (True, False):
+                    for _ in range(2 if quick else 6):
+                        control = rng.choice(controls)
+                        fams = [[[(1, "Z")], [(2, "Z"), (3, "Z")], [(1, "Z"), (3, "Z")]],
+                                [[(1, "X"), (2, "X")], [(1, "Y"), (2, "Y")], [(1, "Z"), (2, "Z")], [(3, "X")]]]
+                        if commuting:
+                            fam = rng.choice(fams)
+                            words = rng.sample(fam, rng.randint(1, len(fam)))
+                        else:
+                            while True:
+                                words = []
+                                for _w in range(rng.randint(2, 3)):
+                                    w = [(q + 1, p_) for q, p_ in rand_word(rng, 3)]
+                                    if w not in words:
+                                        words.append(w)
+                                if len(words) >= 2 and not all(commute_words(a, b) for a, b in itertools.combinations(words, 2)):
+                                    break
+                        if rng.random() < 0.5:
+                            words = words + [[]]
+                        rng.shuffle(words)
+                        terms = [(w, rng.uniform(-1.5, 1.5)) for w in words]
+                        t = rng.uniform(-1.2, 1.2) if commuting else rng.uniform(-0.5, 0.5)
+                        order = rng.choice([1, 2])
+                        via_arg = rng.random() < 0.5
+                        e, d, bound = tsu_case(terms, t, order, n_trotter, n_steps, control, method, via_arg)
+                        cs = ctrl_list(control)
+                        ck.case("unitary-generator", repr((terms, t, order, n_trotter, n_steps, control, method, via_arg)), nontrivial=True,
+                                sample={"terms": terms, "t": t, "order": order, "n_trotter_steps": n_trotter, "n_steps": n_steps, "control": control, "method": method,
+                                        "deviation": d, "bound": bound, "raised": repr(e) if e is not None else None},
+                                tags=["TrotterSuzukiUnitary", method, "n_trotter%d" % n_trotter, "n_steps%d" % n_steps, "commuting" if commuting else "noncommuting", "ctrl%d" % len(cs)])
+                        rep = {"kind": "tsu", "terms": terms, "t": t, "order": order, "n_trotter": n_trotter, "n_steps": n_steps, "control": control, "method": method, "via_arg": via_arg}
+                        what = "TrotterSuzukiUnitary(H=%s, time=%r, trotter_order=%d, n_trotter_steps=%d).build_circuit(%d, control=%s, method=%s)" % (terms, t, order, n_trotter, n_steps, control, method)
+                        if e is not None:
+                            ck.violation("C06/TrotterSuzukiUnitary/raises-%s" % type(e).__name__, "%s raises %s: %s" % (what, type(e).__name__, e), rep)
+                        elif d > bound * (1 + 1e-9) + 1e-8:
+                            ck.violation("C06/TrotterSuzukiUnitary/%s/%s/ctrl%d" % (method, "commuting" if commuting else "noncommuting", len(cs)),
+                                         "%s: ||U - %sexp(-i t H)^n_steps|| = %.3g, allowed %.3g (%s)" % (what, "ctrl " if cs else "", d, bound + 1e-8,
+                                                                                                     "commuting terms: exact" if commuting else "commutator bound"), rep)
+    names = ["H", "X", "Y", "Z", "RX", "RY", "RZ", "PHASE", "CNOT", "CRZ", "CPHASE", "SWAP"]
+    for _ in range(25 if quick else 300):
+        n = rng.randint(1, 3)
+        specs = LC.rand_gate_list(rng, n, rng.randint(1, 6), [nm for nm in names if n >= 2 or nm in LC.ONE_Q + LC.ONE_Q_ROT], max_controls=1, var_p=0.0)
+        n_steps = rng.randint(1, 3)
+        control = rng.choice([None, n, [n], [n + 1, n]])
+        e, d = circuit_unitary_case(specs, n, n_steps, control)
+        ck.case("unitary-generator", json.dumps(["CircuitUnitary", specs, n_steps, control]), nontrivial=len(specs) >= 2,
+                sample={"class": "CircuitUnitary", "gates": specs[:6], "n_steps": n_steps, "control": control, "deviation": d}, tags=["CircuitUnitary", "ctrl%d" % len(ctrl_list(control))])
+        rep = {"kind": "circuit_unitary", "specs": specs, "n": n, "n_steps": n_steps, "control": control}
+        if e is not None:
+            ck.violation("C06/CircuitUnitary/raises-%s" % type(e).__name__, "CircuitUnitary(%s).build_circuit(%d, control=%s) raises %s: %s" % (specs, n_steps, control, type(e).__name__, e), rep)
+        elif d > 1e-8:
+            ck.violation("C06/CircuitUnitary/ctrl%d" % len(ctrl_list(control)), "CircuitUnitary(%s).build_circuit(%d, control=%s): deviation %.3g from the controlled U^n_steps" % (specs, n_steps, control, d), rep)
+
+
 # ------------------------------------------------------------------------------------------ convergence order
 def seq_unitary(terms, t, n, order, nq):
     """(prod_j exp(-i c_j P_j))^n for the coefficient sequence the IMPLEMENTATION returns for one step of length t/n
@@ -1011,6 +1122,15 @@ def replay(data):
         e, d = identity_multictrl_case(r["control"])
         print("control", r["control"], "raised" if e is not None else "ok", repr(e), d)
         return 1 if (e is not None or d > TOL) else 0
+    if k == "tsu":
+        terms = [([tuple(x) for x in w], c) for w, c in r["terms"]]
+        e, d, bound = tsu_case(terms, r["t"], r["order"], r["n_trotter"], r["n_steps"], r["control"], r["method"], r["via_arg"])
+        print("raised" if e is not None else "ok", repr(e), "deviation", d, "bound", bound)
+        return 1 if (e is not None or d > bound * (1 + 1e-9) + 1e-8) else 0
+    if k == "circuit_unitary":
+        e, d = circuit_unitary_case(r["specs"], r["n"], r["n_steps"], r["control"])
+        print("raised" if e is not None else "ok", repr(e), "deviation", d)
+        return 1 if (e is not None or d > 1e-8) else 0
     if k == "convergence":
         terms = [([tuple(x) for x in w], c) for w, c in r["terms"]]
         t, e2, e4 = convergence_case(terms, r["order"], r["nq"], t=r.get("t"), circuit=(r.get("level") == "circuit"))
